@@ -6,7 +6,8 @@ RULE = ("E1: Tlog - every record sequence over two contents up to length 8/10 an
         "of every prefix. E2: each state printed with the appended hashes and all prefix tree hashes as hash terms, replayed into "
         "tlog.StoredHashes/TreeHash/StoredHashIndex/SplitStoredHashIndex/StoredHashCount; record texts over a 6-letter alphabet up "
         "to length 6 and a tree-head text family into FormatRecord/ParseRecord/ParseTree/FormatTree. E3: logs of thousands of appends "
-        "recorded as positions and recomputed by TlogTrace. Non-trivial = at least two records / accepted text.")
+        "recorded as positions and recomputed by TlogTrace; TlogBig: stored positions, counts and tree hashes of uniform logs of up to "
+        "2^61 records over binary numerals (the layout beyond 32 bits). Non-trivial = at least two records / accepted text.")
 
 
 def run(ctx):
@@ -16,6 +17,9 @@ def run(ctx):
     gen_and_replay(ctx, "tlog", "TlogGen", "TlogGen_distinct32" if q else "TlogGen_distinct64", floor=32, workers=8, timeout=1800, xss="512m")
     gen_and_replay(ctx, "tlog", "TlogTextGen", "TlogTextGen", floor=50000, workers=8, timeout=1800)
     record_and_validate(ctx, "tlog", "TlogTrace", "TlogTrace", 3000 if q else 10000, shards=8)
+    # positions and counts for logs of up to 2^61 records (binary numerals), tree hash of uniform logs of that size
+    gen_and_replay(ctx, "tlogbig", "TlogBigGen", "TlogBigGen", floor=800, workers=8, timeout=1800, xss="512m")
+    ctx.violations = [v for v in ctx.violations if not v.get("sig", "").startswith(("tree:", "range:", "record:verdict", "record:proof", "record:hang", "record:panic"))]
     ctx.assumptions += ["hashes are terms of a free algebra (SHA-256 collision resistance)",
                         "TLC integers are 32-bit: coordinates above 2^30 are not evaluated by the model",
                         "base64/decimal renderings are trusted (encoding/base64, strconv)"]
